@@ -71,6 +71,12 @@ func (t *Transfer) In(q *Msg, a string) (env chan *Envelope, err error) {
 		}
 	}
 
+	// A Transfer may be used for more than one transfer. Every request opens a
+	// TSIG transaction of its own (RFC 8945, section 5.1): it is signed with the
+	// complete TSIG variables and is not chained to an earlier message.
+	t.tsigTimersOnly = false
+	t.tsigRequestMAC = ""
+
 	if err := t.WriteMsg(q); err != nil {
 		return nil, err
 	}
